@@ -44,7 +44,7 @@ RULE = ('Hypothesis: CamxSpec (uamiv[AVERAGE EMISSIONS AIRQUALITY INSTANT] '
         'derived IOAPI attributes (TSTEP, SDATE...) are not compared.  '
         'Non-trivial: (>1 variable and nz>1 and steps>1) or a '
         'day/year/century/leap roll-over inside the file or a denormal / '
-        '-0.0 payload.  Distinct by sha1 of the case spec.' + '  Domain by construction: lateral_boundary nx, ny >= 2 (an edge needs its two corner cells), EMISSIONS nz = 1, AIRQUALITY one step, steps of whole hours (lateral_boundary 1 h), every instant incl. the last end time inside 1970-2069, species names not DATE/TFLAG/ETFLAG, a 3-variable cloud_rain file whose size is also a whole number of 5-variable steps is not generated (the format stores no variable count), old-style landuse with at most one optional field.  The reader route is not used for input classes in which the reader is known (C09 findings) not to present the reference file: single-step met files, old-style landuse, 1x1 wind, files straddling 1999/2000; these use the array route.')
+        '-0.0 payload.  Distinct by sha1 of the case spec.' + '  Domain by construction: lateral_boundary nx, ny >= 2 (an edge needs its two corner cells), EMISSIONS nz = 1, AIRQUALITY one step, steps of whole hours (lateral_boundary 1 h), every instant incl. the last end time inside 1970-2069, species names not DATE/TFLAG/ETFLAG, a 3-variable cloud_rain file whose size is also a whole number of 5-variable steps is not generated (the format stores no variable count), old-style landuse with at most one optional field.  The reader route is not used for input classes in which the reader is known (C09 findings) not to present the reference file: single-step met files, old-style landuse, 1x1 wind, files straddling 1999/2000; these use the array route.' + '  Round-5 extensions: route pnc creates the data variables in a drawn permutation; route refread opens 0/1 bystander files of the same format and another shape (kept alive or closed) between reading f and writing it; the reader route is used for every input class except 1x1 wind.')
 ASSUMPTIONS = ['the in-memory files carry the metadata the writers read '
                '(TFLAG, VAR-LIST, TSTEP, CAMx header attributes, LSTAGGER, '
                'FILEDESC, _newstyle) as the library readers present them',
@@ -66,12 +66,7 @@ def cases(draw, tier='quick'):
     if route == 'refread':
         # classes in which the *reader* is known not to present the file
         # (C09 findings) cannot serve as a construction route
-        if (fmt in C.GRIDDED_MET and fmt != 'cloud_rain' and
-                spec['nsteps'] == 1) or \
-                (fmt == 'landuse' and not spec['newstyle']) or \
-                (fmt == 'wind' and spec['nx'] * spec['ny'] == 1) or \
-                (fmt != 'landuse' and
-                 K.straddles_2000(C.instants(spec))):
+        if fmt == 'wind' and spec['nx'] * spec['ny'] == 1:
             route = 'pnc'
     spec['route'] = route
     spec['etflag'] = bool(route != 'refread' and fmt == 'uamiv' and
@@ -82,6 +77,13 @@ def cases(draw, tier='quick'):
         if spec.get('mask') and spec['mask']['kind'] == 'build':
             route = spec['route'] = 'pnc'
             spec['etflag'] = bool(spec['etflag'] and fmt == 'uamiv')
+    if route == 'pnc':
+        draw(C.input_orders(spec))
+    if route == 'refread':
+        # 0/1 files of the same format and another shape are opened (and
+        # kept alive or closed again) between reading f and writing it
+        spec['bystander'] = draw(st.sampled_from([None, None, 'alive',
+                                                  'closed']))
     if fmt == 'wind' and route != 'refread' and spec['lstagger'] is None:
         spec['lstagger'] = draw(st.sampled_from([-1, 0, 1]))
     return spec
@@ -97,8 +99,12 @@ def describe(r, spec, m):
             ('+etflag' if spec.get('etflag') else ''))
     if spec['route'] != 'refread':
         r.label('vdtype:' + spec.get('vdtype', 'f4'))
+        if spec.get('vorder'):
+            r.label('creation-order-permuted')
         if spec.get('mask'):
             r.label('masked-input:' + spec['mask']['kind'])
+    if spec['route'] == 'refread':
+        r.label('bystander:%s' % spec.get('bystander'))
     if fmt == 'uamiv':
         r.label('name:' + spec['name'], 'iproj:%d' % spec['proj']['iproj'])
     nt = spec.get('nsteps', 1)
@@ -223,7 +229,7 @@ def check_case(spec):
     fmt = spec['fmt']
     route = spec['route']
     paths = []
-    f = g = None
+    f = g = by = None
     try:
         # ---------------- f
         n0 = len(r.failures)
@@ -233,6 +239,17 @@ def check_case(spec):
             with open(p0, 'wb') as fo:
                 fo.write(C.ref_bytes(spec))
             ok, f = guard(r, 'build-refread', C.open_lib, spec, p0, 'memmap')
+            if ok and spec.get('bystander'):
+                bs = C.bystander_spec(spec)
+                pb = libstate.scratch_path('.by.' + fmt)
+                paths.append(pb)
+                with open(pb, 'wb') as fo:
+                    fo.write(C.ref_bytes(bs))
+                okb, by = guard(r, 'build-refread', C.open_lib, bs, pb,
+                                'memmap')
+                if okb and spec['bystander'] == 'closed':
+                    C.drop(by)
+                    by = None
         else:
             ok, built = guard(r, 'build-arrays', C.build_lib, spec, route,
                               spec.get('etflag', False))
@@ -291,8 +308,8 @@ def check_case(spec):
                  'bytes, write(f) %d; first difference at offset %d%s' % (
                      len(b2), len(b1), i, where))
     finally:
-        C.drop(f, g)
-        f = g = None
+        C.drop(f, g, by)
+        f = g = by = None
         C.cleanup(*paths)
     return r
 
